@@ -32,8 +32,12 @@ impl ProgramArchive {
     ) -> Result<ProgramArchive, (FileLibrary, Vec<Report>)> {
         let mut merger = Merger::new();
         let mut reports = vec![];
-        for (file_id, definitions) in program_contents {
-            if let Err(mut errs) = merger.add_definitions(*file_id, definitions) {
+        // Files are merged in file ID order, so that the definition which is kept (the first
+        // one) and the one which is reported as a duplicate do not depend on the hash order.
+        let mut file_ids: Vec<FileID> = program_contents.keys().copied().collect();
+        file_ids.sort_unstable();
+        for file_id in file_ids {
+            if let Err(mut errs) = merger.add_definitions(file_id, &program_contents[&file_id]) {
                 reports.append(&mut errs);
             }
         }
